@@ -115,3 +115,11 @@ def compose(db, ctx):
 def map_owner(db, ctx):
     C01.map_owner(db, ctx)
     ctx.floor(6)
+
+
+@rule("C08.split-offsets", "the code-point range of an A/B split unit is obtained by mapping its BYTE end position in the sentence through ch_idx "
+                           "(re-evaluation of C09.offsets: mapping a length, or adding a mapped length to the start, is right only when the text "
+                           "before the unit has as many code points as bytes)")
+def split_offsets(db, ctx):
+    from . import C09
+    C09.offsets(db, ctx)
